@@ -143,7 +143,7 @@ theorem leaky_transform_neg (h : Leaves.LeakyWF p) {x : ℝ} (hx : x ≤ -p.max_
   have hm := h.m_pos
   have hx0 : x < 0 := by linarith
   have habs : p.max_val ≤ |x| := by rw [abs_of_neg hx0]; linarith
-  unfold LeakyTanh.transform
+  rw [Leaves.leaky_transform_def]
   simp only [jabs_eq, ge_iff_le, habs, decide_true, where_true, jsign_neg hx0]
 
 theorem leaky_transform_pos (h : Leaves.LeakyWF p) {x : ℝ} (hx : p.max_val ≤ x) :
@@ -151,11 +151,11 @@ theorem leaky_transform_pos (h : Leaves.LeakyWF p) {x : ℝ} (hx : p.max_val ≤
   have hm := h.m_pos
   have hx0 : 0 < x := by linarith
   have habs : p.max_val ≤ |x| := by rw [abs_of_pos hx0]; exact hx
-  unfold LeakyTanh.transform
+  rw [Leaves.leaky_transform_def]
   simp only [jabs_eq, ge_iff_le, habs, decide_true, where_true, jsign_pos hx0]
 
 theorem leaky_transform_mid {x : ℝ} (hx : |x| < p.max_val) : p.transform x = Real.tanh x := by
-  unfold LeakyTanh.transform
+  rw [Leaves.leaky_transform_def]
   simp only [jabs_eq, ge_iff_le, not_le.mpr hx, decide_false, where_false, tanh_eq]
 
 theorem leaky_piecewise (h : Leaves.LeakyWF p) : PiecewiseDeriv p.transform (leakyDer p) := by
